@@ -7,7 +7,8 @@ phase: no declared length can exceed an array's capacity), DProgress (each step 
 Stage C: the real decoders (three entry points) run on those inputs, on every truncation point of accepted inputs and of the
 repository samples, on single-octet substitutions at every position, on seeded random strings up to 70 000 octets, on
 65 535-octet elements followed by garbage and on allocation-amplification shapes; the driver observes panic / hang
-(watchdog, journaled) / bytes allocated; TLC judges each observation against the property's bound."""
+(watchdog, journaled) / bytes allocated; TLC judges each observation against the property's bound.
+Inputs added after seeded rounds 3-5: a 66 000-octet run of unknown identifiers for EVERY message; every optional element repeated 6 / 64 times; the first content octet of every optional element over 39 values (thorough: 256); dictionary fills (printf directives, raw and as length-prefixed labels); the largest undelivered claim of every 16-bit-length element repeated 1000 times; decode inputs are views of larger arrays with a sentinel behind them."""
 import json, os, re, sys
 sys.path.insert(0, os.path.dirname(os.path.abspath(__file__)))
 from codec_common import *
